@@ -112,8 +112,8 @@ def run_one(spec, random_state=None):
         ev = Evaluator.create(run, method="serial", method_kwargs={"num_workers": 1})
         kw = dict(spec.get("kwargs", {}))
         cls = {"CBO": CBO, "Random": RandomSearch, "RegEvo": RegularizedEvolution}[spec["search"]]
-        search = cls(problem, ev, random_state=int(spec["seed"]) if random_state is None else random_state, log_dir=os.path.join(d, "log_%d" % k), **kw)
         g0 = (np.random.get_state()[1].tobytes(), np.random.get_state()[2], random.getstate())
+        search = cls(problem, ev, random_state=int(spec["seed"]) if random_state is None else random_state, log_dir=os.path.join(d, "log_%d" % k), **kw)
         if spec.get("mode", "search") == "search":
             df = search.search(max_evals=int(spec["evals"]))
             cols = [c for c in df.columns if c.startswith("p:")]
